@@ -211,9 +211,13 @@ type pkgState struct {
 	edited []bool      // parse order
 }
 
-func build(w *workload, pathOf func(i int) string) (*pkgState, error) {
+func build(w *workload, pathOf func(i int) string, sharedResolver ...*goast.DecoratorResolver) (*pkgState, error) {
 	fset := token.NewFileSet()
-	dec := decorator.NewDecoratorWithImports(fset, LocalPath, goast.WithResolver(guess.WithMap(truth())))
+	res := goast.WithResolver(guess.WithMap(truth()))
+	if len(sharedResolver) > 0 && sharedResolver[0] != nil {
+		res = sharedResolver[0] // one identifier resolver used for several packages
+	}
+	dec := decorator.NewDecoratorWithImports(fset, LocalPath, res)
 	st := &pkgState{edited: make([]bool, len(w.files))}
 	for i, f := range w.files {
 		df, err := dec.ParseFile(pathOf(i), []byte(f.src), parser.ParseComments)
@@ -303,7 +307,22 @@ func Run(run *core.Run) {
 		return
 	}
 	simPath := func(i int) string { return w.files[i].path }
-	subj, err := build(w, simPath)
+	// In a third of the runs the package's identifier resolver already served ANOTHER package
+	// (its own Decorator and FileSet, other files, other imports) before this one is loaded.
+	var shared *goast.DecoratorResolver
+	if run.T.Bool(1, 3) {
+		shared = goast.WithResolver(guess.WithMap(truth()))
+		od := decorator.NewDecoratorWithImports(token.NewFileSet(), "sim.local/other", shared)
+		n := 1 + run.T.Draw(2)
+		for i := 0; i < n; i++ {
+			sp := gen.Source(run.T, gen.Options{MaxImports: 4, MaxDecls: 2, UseAll: true, NoVendor: true, PkgName: "other"})
+			if _, err := od.ParseFile(fmt.Sprintf("/sim/other/o%d.go", i), []byte(sp.Src), parser.ParseComments); err != nil {
+				panic("harness: the other package does not parse: " + err.Error())
+			}
+		}
+		run.Count("resolver-shared-with-another-package")
+	}
+	subj, err := build(w, simPath, shared)
 	if err != nil {
 		panic("harness: generated package does not parse: " + err.Error())
 	}
